@@ -299,6 +299,9 @@ Definition do_gate (what : string) (k : nat) : string :=
   out3 (pre ++ show_out (ONAs all)) (pre ++ show_out (ONAs []))
        (if negb (List.length all =? 0)%nat && (List.length nas <=? decided)%nat && (List.length late =? 0)%nat then key else "-").
 
+Definition lim_ra1 : bytes := [134;0;0;0;64;0;7;8;0;0;0;0;0;0;0;0].
+Definition lim_ra2 : bytes := [134;0;0;0;64;0;2;88;0;0;0;0;0;0;0;0].
+
 (* ---------------- kinds opts / tab ---------------- *)
 Definition show_opts_all (o : new_options) : string :=
   "slla=" ++ hx (o_slla o) ++ " tlla=" ++ hx (o_tlla o) ++ " mtu=" ++ dec_of_N (o_mtu o)
@@ -394,6 +397,19 @@ Definition dispatch (kind : string) (args : list string) : string :=
                  if xn_area p then out3 "puny" "-" "-" else out3 m "-" "-"
              | None => BADARGS
              end
+    | _ => BADARGS
+    end
+  else if String.eqb kind "lim" then
+    (* the process-wide rate limiter: counter at -1, an RA (lifetime 1800) to handler 1, n RAs to ANOTHER handler
+       of the process, an RA (lifetime 600) to handler 1; observed: the lifetime handler 1 has recorded *)
+    match args with
+    | [ns] => match nat_of_dec ns with
+              | Some n =>
+                  let evs := (RxRA std_src std_eth lim_ra1 true :: repeat Tick n ++ [RxRA std_src std_eth lim_ra2 true])%list in
+                  let st := snd (run std_cfg (init (-1)) evs) in
+                  out3 (match rt_find (routers st) std_src with Some r => "life" ++ dec_of_N (r_life r) | None => "none" end) "-" "-"
+              | None => BADARGS
+              end
     | _ => BADARGS
     end
   else if String.eqb kind "gate" then
